@@ -172,6 +172,7 @@ func mutantsFor(prop string) []Mutant {
 		{"C17", "Range.MarshalJSON moved to the pointer receiver", []Edit{{"libvore/ds/range.go", "func (r Range) MarshalJSON() ([]byte, error) {", "func (r *Range) MarshalJSON() ([]byte, error) {"}}},
 		{"C10", "Stack.Copy returns a view of the same backing array", []Edit{{"libvore/ds/stack.go", "\tresult := NewStack[T]()\n\n\tfor _, value := range s.store {\n\t\tresult.Push(value)\n\t}\n\n\treturn result\n", "\treturn &Stack[T]{store: s.store[:len(s.store)]}\n"}}},
 		{"C13", "Stack.Copy returns a view of the same backing array", []Edit{{"libvore/ds/stack.go", "\tresult := NewStack[T]()\n\n\tfor _, value := range s.store {\n\t\tresult.Push(value)\n\t}\n\n\treturn result\n", "\treturn &Stack[T]{store: s.store[:len(s.store)]}\n"}}},
+		{"C08", "checker divides by the number of statements of a loop body", []Edit{{sem, "\tinfo.inLoop = wasInLoop\n\treturn info\n", "\tinfo.inLoop = wasInLoop || 1/len(s.Body) > 1\n\treturn info\n"}}},
 		{"C08", "expression scan does not stop on the EOF token", []Edit{{ps, "tokenType == BREAK || tokenType == CONTINUE || tokenType == EOF", "tokenType == BREAK || tokenType == CONTINUE"}}},
 	}
 	var out []Mutant
